@@ -27,7 +27,8 @@ Definition store_id (id : str) (i : idinfo) (s : st) : st :=
   let s1 := if has_key id (ids s) then let q := quiet s in (err "already used id" (s <| quiet := false |>)) <| quiet := q |> else s in
   s1 <| ids ::= assoc_set id i |>.
 
-Definition valid_format (f : str) : bool := existsb (str_eqb f) [R "markdown"; R "xhtml"; R "latex"; R "epub"; R "mom"].
+Definition valid_formats : list string := ["markdown"; "xhtml"; "latex"; "epub"; "mom"]%string.
+Definition valid_format (f : str) : bool := existsb (fun v => str_eqb f (runes v)) valid_formats.
 Definition check_formats (fs : list str) (s : st) : st :=
   fold_left (fun a f => if valid_format f then a else err "invalid argument to -f option" a) fs s.
 Definition not_export_format (fs : list str) (s : st) : bool := negb (existsb (str_eqb (format s)) fs).
